@@ -320,7 +320,7 @@ pub fn dump<'tcx>(tcx: TyCtxt<'tcx>, out: &mut String) {
     owners.sort_by_key(|d| tcx.def_path(d.to_def_id()).to_string_no_crate_verbose());
     for ld in owners {
         let did = ld.to_def_id();
-        if !matches!(tcx.def_kind(did), DefKind::Fn | DefKind::AssocFn) {
+        if !matches!(tcx.def_kind(did), DefKind::Fn | DefKind::AssocFn | DefKind::Const { .. } | DefKind::AssocConst { .. }) {
             continue;
         }
         let Some(body) = tcx.hir_maybe_body_owned_by(ld) else { continue };
